@@ -142,8 +142,8 @@ def rule_transparent(chk, cvar, gv, resumers):
             if n.value.func.attr == "throw":
                 throws += 1
                 a = n.value.args
-                if not (len(a) == 1 and isinstance(a[0], ast.Starred) and isinstance(a[0].value, ast.Name)):
-                    problems.append("throw() is not given the captured exc_info")
+                if not (len(a) == 1 and ((isinstance(a[0], ast.Starred) and isinstance(a[0].value, ast.Name)) or isinstance(a[0], ast.Name))):
+                    problems.append("throw() is not given the captured exception")
     for r in common.returns_of(gcfg):
         v = r.ast.value
         if isinstance(v, ast.Call) and isinstance(v.func, ast.Attribute) and isinstance(v.func.value, ast.Name) and v.func.value.id == gv:
@@ -152,6 +152,27 @@ def rule_transparent(chk, cvar, gv, resumers):
             problems.append("the resuming function returns %s, not the value the generator yielded" % (v is not None and unparse(v)))
     if not sends or not throws:
         problems.append("both send and throw must be forwarded (send: %d, throw: %d)" % (sends, throws))
+    # mode typestate: after a normal resumption the next step must be a send, after a thrown-in exception a throw
+    mode = None  # (variable, constant selecting send)
+    for t in gcfg.live:
+        if t.kind == "test":
+            e = t.exprs[0]
+            send_nodes = [n for n in gcfg.live for c, m in calls_in_node(n) if isinstance(c.func, ast.Attribute) and c.func.attr == "send"]
+            if not send_nodes:
+                continue
+            on_true = all(gcfg.edge_dominates(t, "true", n) for n in send_nodes)
+            on_false = all(gcfg.edge_dominates(t, "false", n) for n in send_nodes)
+            if not (on_true or on_false):
+                continue
+            if isinstance(e, ast.Name):
+                mode = (e.id, "truthy" if on_true else "falsy")
+            elif isinstance(e, ast.UnaryOp) and isinstance(e.op, ast.Not) and isinstance(e.operand, ast.Name):
+                mode = (e.operand.id, "falsy" if on_true else "truthy")
+            elif isinstance(e, ast.Compare) and len(e.ops) == 1 and isinstance(e.left, ast.Name) and isinstance(e.comparators[0], ast.Constant) and e.comparators[0].value is None:
+                isn = isinstance(e.ops[0], (ast.Is, ast.Eq))
+                mode = (e.left.id, "none" if (isn == on_true) else "notnone")
+    if mode is None:
+        problems.append("the choice between send and throw is not a test of a mode variable")
     # wrapper: value_out = cvar.run(go); value_in = yield value_out
     runs = [(n, c) for n in cfg.live for c, m in calls_in_node(n) if isinstance(c.func, ast.Attribute) and c.func.attr == "run" and isinstance(c.func.value, ast.Name) and c.func.value.id == cvar]
     chk.need(runs, "wrapper: context.run call not found")
@@ -180,9 +201,22 @@ def rule_transparent(chk, cvar, gv, resumers):
             for h in t.handlers:
                 if handler_catches_base(h):
                     txt = " ".join(unparse(s) for s in h.body)
-                    okh = "exc_info()" in txt and "False" in txt and not any(isinstance(s, (ast.Raise, ast.Return, ast.Break)) for s in ast.walk(ast.Module(body=h.body, type_ignores=[])))
+                    okh = not any(isinstance(s, (ast.Raise, ast.Return, ast.Break)) for s in ast.walk(ast.Module(body=h.body, type_ignores=[])))
         if not okh:
-            problems.append("an exception thrown in at the yield (incl. GeneratorExit from close()) is not captured by a catch-all and forwarded as exc_info()")
+            problems.append("an exception thrown in at the yield (incl. GeneratorExit from close()) is not captured by a catch-all and forwarded to the generator")
+        if mode is not None:
+            mv, want = mode
+
+            def selects_send(v):
+                if not isinstance(v, ast.Constant):
+                    return False
+                return {"truthy": bool(v.value), "falsy": not v.value, "none": v.value is None, "notnone": v.value is not None}[want]
+            resets = [n for n in cfg.live if isinstance(n.ast, ast.Assign) and any(isinstance(t_, ast.Name) and t_.id == mv for t_ in n.ast.targets) and selects_send(n.ast.value)]
+            run_nodes = [n for n in cfg.live for c, m in calls_in_node(n) if isinstance(c.func, ast.Attribute) and c.func.attr == "run"]
+            normal = [s_ for s_, l in yn.succ if l != "exc"]
+            okm, wit = cfg.must_pass(normal, run_nodes, resets)
+            if not okm:
+                problems.append("after a normal resumption the mode variable %s is not reset to select send(): once an exception was thrown in, every later send()/next() re-throws it (%s)" % (mv, cfg.fmt_path(wit)))
     # handlers around the resumption: only StopIteration, returning .value
     n0, c0 = runs[0]
     ctxm = ctx.cg.ctxmaps[w].get(id(c0), [])
